@@ -183,6 +183,62 @@ func runStepSweep(c *Ctx, prop string) {
 		mu.Unlock()
 	})
 
+	// chains: the same CPU object executes sequences of random implemented
+	// instructions written on an instruction tape at the current PC; the
+	// post-state of one Step is the pre-state of the next, so state that leaks
+	// between consecutive operations (stale prefix, cached decode, hidden
+	// flags) shows up against the memoryless reference model
+	{
+		nchain := c.Pick(4000, 400000)
+		const chainLen = 48
+		var chainSteps int64
+		Parallel(64, func(sh int) {
+			rig := rigPool.Get().(*StepRig)
+			defer func() {
+				rig.Chained = false
+				rig.BreakChain()
+				rigPool.Put(rig)
+			}()
+			rig.Chained = true
+			rig.BreakChain()
+			r := mon.NewRng(mon.Hash(uint64(c.Seed), uint64(sh), 0xC01C))
+			rig.Refill(r.U64())
+			var ls int64
+			for ch := 0; ch < nchain/64; ch++ {
+				rig.BreakChain()
+				st := RandStates(r)
+				var trail []string
+				for k := 0; k < chainLen; k++ {
+					enc := encs[r.Intn(len(encs))]
+					sc := MakeStepCase(enc, r, r.Intn(1<<16))
+					f := st.AF.Lo
+					sc.Pre = st
+					sc.Pre.AF.Lo = f
+					o := rig.Run(&sc)
+					ls++
+					trail = append(trail, enc.String())
+					if o.Bad&aspects != 0 {
+						w := rig.Witness(enc, &sc, &o)
+						w["chain_of_encodings_before"] = trail
+						w["chain_position"] = k
+						c.R.Violation(fmt.Sprintf("%s/chain/%s/%s", prop, enc.String(), BadString(o.Bad&aspects)), w)
+						break
+					}
+					st = o.Post
+					if o.Bad&BadPanic != 0 {
+						break
+					}
+				}
+			}
+			mu.Lock()
+			chainSteps += ls
+			mu.Unlock()
+		})
+		evals += chainSteps
+		c.R.Set("chained_steps", chainSteps)
+		c.R.Set("chains", int64(nchain))
+	}
+
 	// nil-IO pass: the port instructions with no device attached (IN reads 0)
 	if prop == "C01" {
 		var nilEv int64
@@ -224,7 +280,7 @@ func runStepSweep(c *Ctx, prop string) {
 	}
 	switch prop {
 	case "C01":
-		c.R.Set("rule", "every implemented encoding (930, all seven decode tables) x n boundary-biased pre-states (F and displacement cycled through all 256 values, PC straddling FFFF in ~1/8, pointers at/near 0000/FFFF/PC/SP), pseudo-random memory and device bytes; one emulator Step vs one reference-model Step; compared: all registers, F under the tolerance mask, I, IFF1/2, IM, HALT, full memory image, bytes sent to ports. A case is non-trivial when the Step changed a register other than PC/R, wrote memory, or touched a port or data byte; distinct = distinct (encoding, case index, pre-state, device seed) hashes among the non-trivial ones (sampled 1/7 beyond the first 4096 per encoding, exact set capped at 6M: a lower bound)")
+		c.R.Set("rule", "every implemented encoding (930, all seven decode tables) x n boundary-biased pre-states (F and displacement cycled through all 256 values, PC straddling FFFF in ~1/8, pointers at/near 0000/FFFF/PC/SP), pseudo-random memory and device bytes; one emulator Step vs one reference-model Step; plus chains of 48 random implemented instructions executed by ONE CPU object on an instruction tape (post-state of a Step = pre-state of the next) to expose state leaking between consecutive operations; compared: all registers, F under the tolerance mask, I, IFF1/2, IM, HALT, full memory image, bytes sent to ports. A case is non-trivial when the Step changed a register other than PC/R, wrote memory, or touched a port or data byte; distinct = distinct (encoding, case index, pre-state, device seed) hashes among the non-trivial ones (sampled 1/7 beyond the first 4096 per encoding, exact set capped at 6M: a lower bound)")
 	case "C05":
 		c.R.Set("rule", "same workload as C01; compared per Step: multiset of memory reads (addr,value), multiset of memory writes (addr,value) and the ordered port log (direction, port, value) of the emulator against the reference model's bus log; non-trivial/distinct as in C01")
 	}
